@@ -291,14 +291,25 @@ fn garbage_headers(h: &mut Hist) -> Vec<Vec<u8>> {
     v
 }
 
+const HEADER_CLASSES: [Bad; 7] = [Bad::FutureTime, Bad::OldTime, Bad::WrongBitsHarder, Bad::BitsAboveLimit, Bad::BadPow, Bad::Orphan, Bad::ChildOfStable];
+
+/// C11 end-to-end: only the header-rule classes, through the canister on regtest.
+pub fn lane_admit_headers(ctx: &mut Ctx) {
+    lane_admit_with(ctx, &HEADER_CLASSES, "admit_headers");
+}
+
 pub fn lane_admit(ctx: &mut Ctx) {
+    lane_admit_with(ctx, &ALL_BAD, "admit");
+}
+
+fn lane_admit_with(ctx: &mut Ctx, classes: &[Bad], lane: &str) {
     let max_cases = if ctx.tier == Tier::Quick { 100_000 } else { 10_000_000 };
-    for k in ctx.cases("admit", max_cases) {
+    for k in ctx.cases(lane, max_cases) {
         if !ctx.time_left() {
             break;
         }
-        ctx.begin("admit", k);
-        let mut rng = Rng::derive(&[ctx.seed, fp_str("admit"), k]);
+        ctx.begin(lane, k);
+        let mut rng = Rng::derive(&[ctx.seed, fp_str(lane), k]);
         let cfg = cfg_for(&mut rng);
         let mut h = Hist::new(cfg, rng);
         let warm = h.rng.range(3, 12);
@@ -316,7 +327,7 @@ pub fn lane_admit(ctx: &mut Ctx) {
                 valid_response(&mut h, ctx);
                 continue;
             }
-            let class = ALL_BAD[((k as usize) * 7 + e as usize * 5 + h.rng.usize_below(3)) % ALL_BAD.len()];
+            let class = classes[((k as usize) * 7 + e as usize * 5 + h.rng.usize_below(3)) % classes.len()];
             experiment(&mut h, ctx, class);
         }
         // a run of valid responses with announced headers while the chain keeps growing
